@@ -188,6 +188,12 @@ class ShareFile:
             self._schema = schema_from_version(version)
             if self._schema is None:
                 raise UnknownImmutableContainerVersionError(filename, version)
+            if num_leases * self.LEASE_SIZE > filesize - 0xc:
+                # callers (e.g. the lease crawler) treat struct.error as
+                # "corrupt share"
+                raise struct.error(
+                    "share file %r is %d bytes long, too short for the %d leases its header claims"
+                    % (filename, filesize, num_leases))
             self._num_leases = num_leases
             self._lease_offset = filesize - (num_leases * self.LEASE_SIZE)
             self._length = filesize - 0xc - (num_leases * self.LEASE_SIZE)
